@@ -55,7 +55,7 @@ CLAIMED = {
  'C13': {
   'text': 'Inductive decomposition of CornerTable::Init on the real member functions: ComputeOppositeCorners on EVERY triangle list, BreakNonManifoldEdges and ComputeVertexCorners each from ANY state satisfying the previous phase\'s post-condition; asserted: symmetric pairing across a shared oppositely oriented edge of two non-degenerate non-mirrored faces, degenerate faces unlinked, manifold edges connected, every corner maps through the parent relation to its input vertex id, all corners of a vertex lie on the one fan reached from its representative corner; plus the whole Init on two triangles.',
   'design_ref': 'DESIGN.md 3/C13', 'technique': _T + '; inductive (one-phase-from-arbitrary-consistent-state) decomposition',
-  'note': _N + 'Bounds: 2 triangles over <= 4 vertex ids (quick), 3 triangles over 5 ids for phases 2 and 3 (thorough) - below the property\'s own bound of 4 triangles over 5 ids; phase 2 can only remove a link from 4 faces on: within the bound it is decided to terminate and to change nothing, its repair logic (where both seeded defects sit, needing 4-5 faces) is beyond the bound (missed). libstdc++ vector growth is replaced by contract models (harness/verif_vecmodel_*.h). MeshAttributeCornerTable and the mesh -> corner table helpers are outside the claim.'},
+  'note': _N + 'Bounds: 2 triangles over <= 4 vertex ids (quick), 3 triangles over 5 ids for phases 2 and 3 (thorough) - below the property\'s own bound of 4 triangles over 5 ids; phase 2 can only remove a link from 4 faces on: within the bound it is decided to terminate and to change nothing, its repair logic (where both seeded defects sit, needing 4-5 faces) is beyond the bound (missed). libstdc++ vector growth is replaced by contract models (harness/verif_vecmodel_*.h). MeshAttributeCornerTable::RecomputeVertices is decided for 2 faces; InitFromAttribute and the mesh -> corner table helpers are outside the claim.'},
  'C05': {
   'category': 'translation_validation', 'engine': 'ir2c+cbmc (tv)',
   'text': 'Translation validation: the C translation of 39 format-defining decoder kernels (constants, varints, transforms, rANS/rABS steps and table parsing, version gates, dequantization, predictors) at the pinned revision is frozen under frozen/; every run regenerates the current translation and CBMC proves equal observable results for ALL inputs of each kernel harness. A behavioural edit yields a distinguishing input that is replayed on the compiled kernels.',
